@@ -40,6 +40,8 @@ INDEX_PRESERVING = {
     'next': 'the loop\'s own next()', 'deref': 'Vec -> slice', 'deref_mut': 'Vec -> slice', 'as_slice': 'Vec::as_slice',
     'as_mut_slice': 'Vec::as_mut_slice', 'as_ref': 'AsRef<[T]>', 'borrow': 'Borrow<[T]>', 'copied': 'Iterator::copied', 'cloned': 'Iterator::cloned',
 }
+# adaptors that may sit between `enumerate()` and the search: they drop or reorder (index, element) pairs but do not change a pair
+PAIR_PRESERVING = {'enumerate', 'rev', 'skip', 'take', 'filter', 'skip_while', 'take_while', 'step_by', 'peekable', 'fuse'}
 # mutating Vec operations that keep the multiset of elements (C14 speaks about the lists as sets)
 ORDER_ONLY = {'sort', 'sort_by', 'sort_by_key', 'sort_by_cached_key', 'sort_unstable', 'sort_unstable_by', 'sort_unstable_by_key', 'reverse', 'swap',
               'rotate_left', 'rotate_right', 'reserve', 'reserve_exact', 'shrink_to_fit', 'shrink_to'}
@@ -61,50 +63,9 @@ def _is_local(o, l):
     return o['k'] in ('copy', 'move') and o['pl']['l'] == l and not o['pl']['p']
 
 
-# ------------------------------------------------------------------------- path-sensitive reachability
-def cp_reach(body, starts, assume_stmt=None, assume_call=None):
-    """forward reachability with constant propagation of bool locals (as templates.reach_cp), where in
-    addition the results of the given comparison statements / calls are *assumed* to be a constant:
-    assume_stmt: {id(stmt): bool}, assume_call: {bb: bool}.  Used to ask `what is reachable if every
-    id comparison fails`."""
-    assume_stmt = assume_stmt or {}; assume_call = assume_call or {}
-    seen = set(); out = set(); work = [(s, frozenset()) for s in starts]
-    while work:
-        bi, env = work.pop()
-        if (bi, env) in seen: continue
-        seen.add((bi, env)); out.add(bi)
-        if len(seen) > 60000: return body.reach(starts)       # give up: plain over-approximation
-        e = dict(env)
-        blk = body.blocks[bi]
-        for st in blk['st']:
-            if 'dst' not in st: continue
-            d = st['dst']
-            if d['p']: continue
-            rv = st['rv']; ops = rv.get('ops') or [None]; o = ops[0]
-            if id(st) in assume_stmt: e[d['l']] = assume_stmt[id(st)]
-            elif rv['k'] == 'use' and o['k'] == 'const' and _cv(o) in ('true', 'false'): e[d['l']] = (_cv(o) == 'true')
-            elif rv['k'] == 'use' and o['k'] in ('copy', 'move') and not o['pl']['p'] and o['pl']['l'] in e: e[d['l']] = e[o['pl']['l']]
-            elif rv['k'] == 'un' and rv['op'] == 'Not' and o['k'] in ('copy', 'move') and not o['pl']['p'] and o['pl']['l'] in e: e[d['l']] = not e[o['pl']['l']]
-            else: e.pop(d['l'], None)
-            if rv['k'] == 'ref' and rv.get('mut'): e.pop(rv['pl']['l'], None)
-        t = blk['term']
-        succs = body.succ(bi)
-        if t['k'] == 'call':
-            if not t['dst']['p']:
-                dl = t['dst']['l']
-                nm = t['r'] or t['f']; a0 = t['args'][0] if t['args'] else None
-                if bi in assume_call: e[dl] = assume_call[bi]
-                elif T.NOT_CALL.search(nm) and a0 and a0['k'] in ('copy', 'move') and not a0['pl']['p'] and a0['pl']['l'] in e: e[dl] = not e[a0['pl']['l']]
-                else: e.pop(dl, None)
-        elif t['k'] == 'switch' and t['d']['k'] != 'const' and not t['d']['pl']['p'] and t['d']['pl']['l'] in e:
-            v = 1 if e[t['d']['pl']['l']] else 0
-            m = {val: tg for val, tg in t['ts']}
-            succs = [m.get(v, t['else'])]
-        fe = frozenset(e.items())
-        for s in succs:
-            if body.blocks[s]['cleanup']: continue
-            work.append((s, fe))
-    return out
+# path-sensitive reachability with assumed comparison results, and the T-ERRFLOW variant built on it (see C15.py; both modules
+# have the same owner -- candidates for a shared engine file)
+from .C15 import reach_x, errflow_g
 
 
 # ------------------------------------------------------------------------------------- the search loop
@@ -142,6 +103,34 @@ def counter_defs(body, l):
     return (inits, incs, ids) if inits and incs else None
 
 
+def closure_of(body, op):
+    """def path of the closure an operand *is* (followed through plain moves to its `closure` aggregate).  Not the
+    `closures` of a slice: those also contain every closure used inside callees the value passed through."""
+    if op['k'] not in ('copy', 'move') or op['pl']['p']: return None
+    l = op['pl']['l']
+    for _ in range(8):
+        ds = body.defs_of(l)
+        if len(ds) != 1 or ds[0][0] != 'stmt' or ds[0][2]['dst']['p']: return None
+        rv = ds[0][2]['rv']
+        if rv['k'] == 'agg' and rv['adt'].startswith('closure:'): return rv['adt'][8:]
+        if rv['k'] == 'use' and rv['ops'][0]['k'] in ('copy', 'move') and not rv['ops'][0]['pl']['p']: l = rv['ops'][0]['pl']['l']; continue
+        if rv['k'] == 'ref' and not rv['pl']['p']: l = rv['pl']['l']; continue
+        return None
+    return None
+
+
+def item_fields(body, lo, op, depth=14):
+    """tuple components selected from the item of loop `lo` by an operand ([] = the item itself, ['0'] = item.0);
+    None if the operand is not a projection / copy / reference of the item"""
+    e = T.expr(body, op, depth=depth)
+    for _ in range(6):
+        if e[0] == 'call' and T.TRANSPARENT.search(T.strip_generics_tail(e[2])) and e[3]: e = e[3][0]; continue
+        break
+    if e[0] == 'call' and len(e) > 4 and e[4] == lo[0].bb: return []
+    if e[0] == 'proj' and e[1][0] == 'call' and len(e[1]) > 4 and e[1][4] == lo[0].bb: return [f for a, f in e[2] if a == 'tuple']
+    return None
+
+
 def id_comparisons(ctx, body, lo):
     """comparisons `item.id == key` of the search loop `lo`.  Returns (assume_stmt, assume_call, sites):
     the value each comparison's result has when the ids differ."""
@@ -157,8 +146,8 @@ def id_comparisons(ctx, body, lo):
             if (is_id(a) and is_key(b)) or (is_id(b) and is_key(a)):
                 a_st[id(st)] = (rv['op'] == 'Ne'); sites.append(bi)
     for c in body.calls:
-        # <u64 as PartialEq>::eq(&x.id, &k)
-        if c.item in ('eq', 'ne') and 'PartialEq' in (c.trait or '') and re.search(r'^&*u64$', (c.self_ty or '').replace(' ', '')) and len(c.args) == 2:
+        # <u64 as PartialEq>::eq(&x.id, &k);  opt.map(|c| c.id) == Some(k)  (Option<u64>: equal only if both ids are there and equal)
+        if c.item in ('eq', 'ne') and 'PartialEq' in (c.trait or '') and re.search(r'^<&*(std::option::Option<&*u64>|u64)as', c.name.replace(' ', '')) and len(c.args) == 2:
             a, b = [ctx.S.slice_operand(body, o) for o in c.args]
             if (is_id(a) and is_key(b)) or (is_id(b) and is_key(a)):
                 a_call[c.bb] = (c.item == 'ne'); sites.append(c.bb)
@@ -168,7 +157,7 @@ def id_comparisons(ctx, body, lo):
             recv = ctx.S.slice_operand(body, c.args[0]); cl = ctx.S.slice_operand(body, c.args[ent[0]])
             if not (nxt in recv.call_objs and KEY_PARAM in cl.params): continue
             good = False
-            for cn in cl.closures:
+            for cn in [closure_of(body, c.args[ent[0]])]:
                 cb = ctx.F.bodies.get(cn)
                 if cb is None: continue
                 rets = [d for d in cb.defs_of(0)]
@@ -198,45 +187,87 @@ def lookup(ctx, R, body, rm, src_field, dst_field):
     for l, (inits, incs, inc_ids) in counters.items():
         cands = [lo for lo in loops if all(b in lo[4] for b in incs)]
         if cands: found.append((l, inits, incs, inc_ids, min(cands, key=lambda lo: len(lo[4]))))
-    ctx.check(len(found) >= 1, R + '/lookup/index-from-search', 'T-CARRY', body.name,
-              'the removed index is not the position counter of a search loop (counter from 0, +1 per element)', body.site(rm.bb))
-    for l, inits, incs, inc_ids, lo in found:
+    # (b) no counter: the index component of the pairs of `enumerate()` over the list (`for (i, c) in list.iter().enumerate()`)
+    enum_found = []
+    if not found:
+        for lo in loops:
+            en = [x for x in ctx.S.slice_operand(body, lo[0].args[0]).call_objs if x.item == 'enumerate' and 'Iterator' in (x.trait or '')]
+            hits = [(bi, st) for bi, st in body.stmts() if st['rv']['k'] == 'agg' and st['rv']['adt'].endswith('Option::Some') and not st['dst']['p']
+                    and st['dst']['l'] in ix.locals and item_fields(body, lo, st['rv']['ops'][0]) == ['0']]
+            if len(en) == 1 and (hits or item_fields(body, lo, ix_op) == ['0']): enum_found.append((lo, en[0], hits))
+    ctx.check(len(found) + len(enum_found) >= 1, R + '/lookup/index-from-search', 'T-CARRY', body.name,
+              'the removed index is neither the position counter of a search loop (counter from 0, +1 per element) nor the index of an enumerate() over the list', body.site(rm.bb))
+    sources = [dict(l=l, inits=inits, incs=incs, inc_ids=inc_ids, lo=lo, en=None) for l, inits, incs, inc_ids, lo in found] + \
+              [dict(l=None, inits=[], incs=[], inc_ids=set(), lo=lo, en=en, hits=hits) for lo, en, hits in enum_found]
+    for src in sources:
+        l, inits, incs, inc_ids, lo = src['l'], src['inits'], src['incs'], src['inc_ids'], src['lo']
         nxt, header, some_bb, none_bb, blocks = lo
         site = body.site(nxt.bb)
-        # ---- which list, and is the counter an index into it
-        it = ctx.S.slice_operand(body, nxt.args[0])
-        ctx.check(it.has_field(INST, src_field) and not it.has_field(INST, dst_field), R + '/lookup/list', 'T-CARRY', body.name,
-                  'lookup does not search self.%s' % src_field, site)
-        adaptors = sorted({x.item for x in it.call_objs if ('Iterator' in (x.trait or '') or 'Iterator' in x.name) and x.item not in INDEX_PRESERVING})
+        # ---- which list, and is the counter / enumerate index an index into it
+        whole = ctx.S.slice_operand(body, nxt.args[0])
+        # what is counted / numbered: the loop's iterator resp. the receiver of enumerate(), as an expression (precise;
+        # a slice comes back to everything done with `self` as soon as self is reborrowed, e.g. for an inlined helper)
+        e = T.expr(body, nxt.args[0] if src['en'] is None else src['en'].args[0], depth=16)
+        fl = [f for a, f in T.expr_fields(e) if a == INST or a.endswith('::' + INST)]
+        if fl:
+            on_list = src_field in fl and dst_field not in fl
+            adaptors = sorted({x[1] for x in T.expr_calls(e) if x[1] not in INDEX_PRESERVING})
+        else:
+            # not a single-definition chain: fall back to the slice (over-approximate)
+            on_list = whole.has_field(INST, src_field) and not whole.has_field(INST, dst_field)
+            adaptors = sorted({x.item for x in whole.call_objs if ('Iterator' in (x.trait or '') or 'Iterator' in x.name) and x.item not in INDEX_PRESERVING and x is not src['en']})
+        ctx.check(on_list, R + '/lookup/list', 'T-CARRY', body.name, 'lookup does not search self.%s' % src_field, site)
         ctx.check(not adaptors, R + '/lookup/index-of-the-list-itself', 'T-CARRY', body.name,
                   'the position is computed on an adapted iterator (%s), so it is not an index into self.%s' % (adaptors, src_field), site)
-        once = (all(b not in blocks for b in inits) and T.must_pass(body, some_bb, {header}, set(incs))
-                and not any(body.reach(body.succ(b), stop={header}) & set(incs) for b in incs))
-        ctx.check(once, R + '/lookup/counts-every-element', 'T-LOOPMUST', body.name,
-                  'the position counter is not incremented exactly once for every element that is not the match', site)
-        # ---- where the counter is read: only as `Some(counter)` under a successful id comparison
-        aliases = T.copies_of(body, l, through_refs=False)
-        hits = []; other = []
-        for a in aliases:
-            for kind, bi, x in body.uses.get(a, ()):
-                if kind == 'stmt':
-                    if id(x) in inc_ids: continue
-                    rv = x['rv']
-                    if rv['k'] == 'use' and not x['dst']['p'] and x['dst']['l'] in aliases: continue
-                    if rv['k'] == 'agg' and rv['adt'].endswith('Option::Some') and not x['dst']['p']: hits.append((bi, x))
+        if src['en'] is None:
+            once = (all(b not in blocks for b in inits) and T.must_pass(body, some_bb, {header}, set(incs))
+                    and not any(body.reach(body.succ(b), stop={header}) & set(incs) for b in incs))
+            ctx.check(once, R + '/lookup/counts-every-element', 'T-LOOPMUST', body.name,
+                      'the position counter is not incremented exactly once for every element that is not the match', site)
+        else:
+            # between enumerate() and the loop only adaptors that hand the (index, element) pairs on unchanged
+            above = sorted({x.item for x in whole.call_objs if ('Iterator' in (x.trait or '') or 'Iterator' in x.name)
+                            and x.item not in INDEX_PRESERVING and x.item not in PAIR_PRESERVING})
+            ctx.check(not above, R + '/lookup/counts-every-element', 'T-LOOPMUST', body.name,
+                      'the (index, element) pairs of enumerate() are transformed by %s before the search sees them' % above, site)
+        # ---- where the position is read: only as `Some(position)` under a successful id comparison
+        # a hit is `Some(position)` (search first, act later) or the removal itself taking the position (search and act in the loop)
+        hits = []; other = []; direct = False
+        if src['en'] is not None:
+            hits = src['hits']
+            direct = item_fields(body, lo, ix_op) == ['0']
+        else:
+            aliases = T.copies_of(body, l, through_refs=False)
+            direct = ix_op['k'] in ('copy', 'move') and not ix_op['pl']['p'] and ix_op['pl']['l'] in aliases
+            for a in aliases:
+                for kind, bi, x in body.uses.get(a, ()):
+                    if kind == 'stmt':
+                        if id(x) in inc_ids: continue
+                        rv = x['rv']
+                        if rv['k'] == 'use' and not x['dst']['p'] and x['dst']['l'] in aliases: continue
+                        if rv['k'] == 'agg' and rv['adt'].endswith('Option::Some') and not x['dst']['p']: hits.append((bi, x))
+                        else: other.append(bi)
+                    elif kind == 'call' and x is rm and direct: continue
                     else: other.append(bi)
-                else: other.append(bi)
-        ctx.check(bool(hits) and not other, R + '/lookup/result-is-position', 'T-CARRY', body.name,
-                  'the position counter is used other than as the `Some(position)` result of the search (bb%s)' % sorted(set(other)), site)
+        hit_bbs = {bi for bi, x in hits} | ({rm.bb} if direct else set())
+        ctx.check(bool(hit_bbs) and not other and not (direct and hits), R + '/lookup/result-is-position', 'T-CARRY', body.name,
+                  'the position is used other than as the `Some(position)` result of the search or as the index of the removal (bb%s)' % sorted(set(other)), site)
         a_st, a_call, sites = id_comparisons(ctx, body, lo)
         ctx.check(bool(sites), R + '/lookup/by-id', 'T-CARRY', body.name,
                   'the search loop does not compare the element\'s constraint id with the argument', site)
         if sites:
-            r = cp_reach(body, [0], a_st, a_call)
-            reached = sorted({bi for bi, x in hits if bi in r} | {bi for bi in other if bi in r})
+            r = reach_x(body, [0], assume_stmt=a_st, assume_call=a_call)
+            reached = sorted({bi for bi in hit_bbs if bi in r} | {bi for bi in other if bi in r})
             ctx.check(not reached, R + '/lookup/eq', 'T-BRANCHFX', body.name,
                       'the position is taken (bb%s) on a path on which no id comparison succeeded' % reached, site)
         # ---- not found => Err, nothing else
+        if direct:
+            # the removal sits in the loop: leaving the loop without a match must not end in an Ok-exit
+            ctx.ok(R + '/lookup/result-some-only-on-match', 'T-ERRFLOW', site, shape='position consumed where it is found')
+            ctx.counters['cfg_paths'] += 1
+            ctx.check(not (reach_x(body, [none_bb]) & body.strict_ok_exits()), R + '/lookup/none-is-error', 'T-ERRFLOW', body.name, 'the search loop can be exhausted and an Ok-exit reached', site)
+            ctx.ok(R + '/move/remove-index', 'T-CARRY', body.site(rm.bb)); ctx.ok(R + '/move/remove-index-plain', 'T-CARRY', body.site(rm.bb))
+            continue
         res0 = sorted({x['dst']['l'] for bi, x in hits})
         res = set()                                   # the Option the search leaves its result in, and the locals it is moved through
         for rl in res0: res |= T.copies_of(body, rl, through_refs=False)
@@ -248,13 +279,13 @@ def lookup(ctx, R, body, rm, src_field, dst_field):
         defs_ok = all(res_def_ok(k, d) for rl in res for k, bi, d in body.defs_of(rl))
         ctx.check(defs_ok, R + '/lookup/result-some-only-on-match', 'T-ERRFLOW', body.name, 'the search result is also assigned something else than Some(position) / None', site)
         for rl in res0:
-            out = T.errflow(body, rl); ctx.counters['cfg_paths'] += 1
+            out = errflow_g(body, rl); ctx.counters['cfg_paths'] += 1
             bad = sorted({h for k, h in out if k == 'bad'})
             ctx.check(not bad, R + '/lookup/none-is-error', 'T-ERRFLOW', body.name, 'lookup result: %s' % '; '.join(bad), site, consumers=[h for k, h in out])
         # ---- the index is that result, unchanged
-        ctx.check(l in ix.locals and all(rl in ix.locals for rl in res0), R + '/move/remove-index', 'T-CARRY', body.name, 'removed index does not come from the lookup', body.site(rm.bb))
+        ctx.check((l is None or l in ix.locals) and bool(res0) and all(rl in ix.locals for rl in res0), R + '/move/remove-index', 'T-CARRY', body.name, 'removed index does not come from the lookup', body.site(rm.bb))
         fs, root, _ = T.access_path(body, ix_op)
-        plain = root in res and all(T.WRAPPER_OWNER.search(a) for a, f in fs)
+        plain = (root in res and all(T.WRAPPER_OWNER.search(a) for a, f in fs)) or flows_plainly_from(body, ix_op, res)
         # anything computed on the way (index + 1, index.min(..), a cast) makes it another index
         computed = sorted({bi for x in ix.locals if x > body.argc for k, bi, d in body.defs_of(x)
                            if (k == 'stmt' and d['rv']['k'] in ('bin', 'un', 'cast') and id(d) not in inc_ids) or
@@ -262,7 +293,36 @@ def lookup(ctx, R, body, rm, src_field, dst_field):
         if plain: ctx.ok(R + '/move/remove-index-plain', 'T-CARRY', body.site(rm.bb))
         elif computed: ctx.bad(R + '/move/remove-index-plain', 'T-CARRY', body.name, 'the removed index is computed from the lookup result (bb%s), not the result itself' % computed, body.site(rm.bb))
         else: ctx.undecided(R + '/move/remove-index-plain', 'T-CARRY', body.site(rm.bb), 'the index reaches remove() through more than copies / `?` / Some-payload; only its dependence on the lookup is decided')
-    return found
+    return sources
+
+
+SUCCESS_ADT = ('Result::Ok', 'Option::Some', 'ControlFlow::Continue'); FAILURE_ADT = ('Result::Err', 'Option::None', 'ControlFlow::Break')
+
+
+def flows_plainly_from(body, op, targets, depth=20):
+    """the operand is one of `targets` handed on unchanged: through copies, references, success wrappers (Ok / Some /
+    Continue built and taken apart again: `?`, `Ok(index)` of an inlined helper), transparent adaptors (with_context,
+    ok_or, branch, ...); definitions that only carry the failure (from_residual, Err / None) are not on the way"""
+    if depth == 0 or op['k'] not in ('copy', 'move'): return False
+    pl = op['pl']
+    if not all(T.WRAPPER_OWNER.search(a) for a, f in fields_of_place(pl)): return False
+    if pl['l'] in targets: return True
+    if 1 <= pl['l'] <= body.argc: return False
+    nxt = []
+    for k, bi, d in body.defs_of(pl['l']):
+        if k == 'call':
+            nm = d['r'] or d['f']
+            if 'from_residual' in nm: continue
+            if T.TRANSPARENT_NOCLONE.search(T.strip_generics_tail(nm)) and d['args']: nxt.append(d['args'][0]); continue
+            return False
+        if d['dst']['p']: return False
+        rv = d['rv']
+        if rv['k'] == 'use': nxt.append(rv['ops'][0])
+        elif rv['k'] == 'ref': nxt.append({'k': 'copy', 'pl': rv['pl']})
+        elif rv['k'] == 'agg' and rv['adt'].endswith(SUCCESS_ADT) and len(rv['ops']) == 1: nxt.append(rv['ops'][0])
+        elif rv['k'] == 'agg' and rv['adt'].endswith(FAILURE_ADT): continue
+        else: return False
+    return bool(nxt) and all(flows_plainly_from(body, o, targets, depth - 1) for o in nxt)
 
 
 def value_root(body, op):
@@ -345,6 +405,8 @@ def one_move(ctx, name, src_field, src_ty, dst_field, dst_ty):
                 fs = fields_of_place(st['dst'])
                 # building the wrapper field by field (`rc.removed_reason = reason`) is not a change of the element
                 if fs and fs[0][0].endswith('v1::RemovedConstraint') and fs[0][1] in ('removed_reason', 'removed_reason_parameters'): continue
+                # relax: the wrapper is new, assigning its `constraint` field as a whole is how it gets its content (reason/constraint-is-removed-one checks what)
+                if name == 'relax_constraint' and len(fs) == 1 and fs[0][0].endswith('v1::RemovedConstraint'): continue
                 touched.append(body.site(bi))
         ctx.check(not touched, R + '/element-not-borrowed-mutably', 'T-CARRY', body.name, 'the moved element is modified at %s' % sorted(set(touched)), body.site(c.bb), chain=sorted(chain))
     # no field of the moved constraint is assigned
